@@ -39,3 +39,119 @@ Proof.
   exact (generic_distinct (final_name p k) (adjust_of p k) (apply_case k) (final_adjust p k Hp)
            (fun a r => case_alnum k a r) names Hs Hf).
 Qed.
+
+(* ------------------------------------------------------------------ numeric suffixes are fresh *)
+(* RenameDuplicateClasses.next_qname: the candidate that is compared with the reserved set *)
+Definition ccand (u : bool) (ns name : str) (i : N) : str :=
+  alnum (if u then name ++ us ++ to_dec i else build_qname ns (name ++ us ++ to_dec i)).
+
+Lemma alnum_build_qname ns x : alnum (build_qname ns x) = alnum ns ++ alnum x.
+Proof.
+  unfold build_qname. destruct ns as [|c ns]; [reflexivity|].
+  rewrite !alnum_app. change (alnum [123]) with (@nil N). change (alnum [125]) with (@nil N). reflexivity.
+Qed.
+
+Lemma ccand_eq u ns name i :
+  ccand u ns name i = (if u then alnum name else alnum ns ++ alnum name) ++ to_dec i.
+Proof.
+  unfold ccand. destruct u.
+  - rewrite !alnum_app, alnum_us. cbn [app]. rewrite (alnum_digits (to_dec i)) by apply to_dec_digits. reflexivity.
+  - rewrite alnum_build_qname, !alnum_app, alnum_us. cbn [app].
+    rewrite (alnum_digits (to_dec i)) by apply to_dec_digits. rewrite app_assoc. reflexivity.
+Qed.
+
+Lemma ccand_inj u ns name i j : ccand u ns name i = ccand u ns name j -> i = j.
+Proof.
+  rewrite !ccand_eq. intros H. apply app_inv_head in H.
+  rewrite <- (str_val_to_dec i), <- (str_val_to_dec j), H. reflexivity.
+Qed.
+
+Lemma next_index_sound fuel u ns name res : forall i j,
+  next_index fuel u ns name res i = Some j -> str_in (ccand u ns name j) res = false.
+Proof.
+  induction fuel as [|fuel IH]; intros i j H; [discriminate|]. cbn [next_index] in H.
+  fold (ccand u ns name i) in H. destruct (str_in (ccand u ns name i) res) eqn:E.
+  - apply (IH _ _ H).
+  - injection H as <-. exact E.
+Qed.
+
+Lemma next_index_none fuel u ns name res : forall i,
+  next_index fuel u ns name res i = None ->
+  forall d, (d < fuel)%nat -> str_in (ccand u ns name (i + N.of_nat d)) res = true.
+Proof.
+  induction fuel as [|fuel IH]; intros i H d Hd; [lia|]. cbn [next_index] in H.
+  fold (ccand u ns name i) in H. destruct (str_in (ccand u ns name i) res) eqn:E; [|discriminate].
+  destruct d as [|d].
+  - replace (i + N.of_nat 0) with i by lia. exact E.
+  - replace (i + N.of_nat (S d)) with ((i + 1) + N.of_nat d) by lia. apply IH; [exact H|lia].
+Qed.
+
+Lemma next_index_total u ns name res :
+  exists j, next_index (S (List.length res)) u ns name res 1 = Some j.
+Proof.
+  destruct (next_index (S (List.length res)) u ns name res 1) as [j|] eqn:E; [eexists; reflexivity|]. exfalso.
+  pose proof (next_index_none _ _ _ _ _ _ E) as H.
+  set (f := fun d : nat => ccand u ns name (1 + N.of_nat d)).
+  assert (Hinj : FinFun.Injective f).
+  { intros a b Hab. unfold f in Hab. apply ccand_inj in Hab. lia. }
+  assert (Hnd : NoDup (map f (seq 0 (S (List.length res)))))
+    by (apply FinFun.Injective_map_NoDup; [exact Hinj|apply seq_NoDup]).
+  assert (Hincl : incl (map f (seq 0 (S (List.length res)))) res).
+  { intros x Hx. apply in_map_iff in Hx as [d [<- Hd]]. apply in_seq in Hd.
+    apply str_in_In. apply H. lia. }
+  pose proof (NoDup_incl_length Hnd Hincl) as L. rewrite map_length, seq_length in L. lia.
+Qed.
+
+Lemma cget_cset_same p n l : (p < List.length l)%nat ->
+  c_name (cget (cset_name p n l) p) = n /\ c_ns (cget (cset_name p n l) p) = c_ns (cget l p).
+Proof.
+  unfold cget. revert p; induction l as [|a l IH]; intros [|p] H; cbn in *; try lia; [split; reflexivity|].
+  apply IH. lia.
+Qed.
+
+Lemma cget_cset_other p n l i : i <> p -> cget (cset_name p n l) i = cget l i.
+Proof.
+  unfold cget. revert p i; induction l as [|a l IH]; intros [|p] [|i] H; cbn; try reflexivity; try congruence.
+  apply IH. congruence.
+Qed.
+
+Lemma cset_name_length p n l : List.length (cset_name p n l) = List.length l.
+Proof. revert p; induction l as [|a l IH]; intros [|p]; cbn; auto. Qed.
+
+(* the reserved set, once built, covers the comparison keys of every class *)
+Definition res_ok (u : bool) (l : list cls) (res : option (list str)) : Prop :=
+  match res with
+  | Some (x :: r) => incl (map (c_cmp u) l) (x :: r)
+  | _ => True
+  end.
+
+(* add_numeric_suffix: the renamed class gets a comparison key that NO class had before (in the
+   mode the handler runs in: names, or qualified names), and the reserved set stays a cover *)
+Theorem numeric_suffix_fresh u l res p :
+  (p < List.length l)%nat -> res_ok u l res ->
+  let st' := add_numeric_suffix u (l, res) p in
+  ~ In (c_cmp u (cget (fst st') p)) (map (c_cmp u) l) /\
+  (forall i, i <> p -> cget (fst st') i = cget l i) /\
+  res_ok u (fst st') (snd st').
+Proof.
+  intros Hp Hok. unfold add_numeric_suffix.
+  set (reserved := match res with Some [] | None => map (c_cmp u) l | Some r => r end).
+  assert (Hcover : incl (map (c_cmp u) l) reserved).
+  { unfold reserved. destruct res as [[|x r]|]; try apply incl_refl. exact Hok. }
+  destruct (next_index_total u (c_ns (cget l p)) (c_name (cget l p)) reserved) as [j Hj].
+  rewrite Hj. cbn zeta. cbn [fst snd].
+  pose proof (next_index_sound _ _ _ _ _ _ _ Hj) as Hs. apply str_in_false in Hs.
+  set (new_name := c_name (cget l p) ++ us ++ to_dec j) in *.
+  destruct (cget_cset_same p new_name l Hp) as [En Ens].
+  assert (Ecmp : c_cmp u (cget (cset_name p new_name l) p) = ccand u (c_ns (cget l p)) (c_name (cget l p)) j).
+  { unfold c_cmp, c_qname, ccand. rewrite En, Ens. reflexivity. }
+  split; [|split].
+  - rewrite Ecmp. intros Hin. apply Hs. apply Hcover. exact Hin.
+  - intros i Hi. apply cget_cset_other. exact Hi.
+  - cbn [res_ok]. intros x Hx. apply in_map_iff in Hx as [c [<- Hc]].
+    apply (In_nth _ _ dummy_cls) in Hc as [i [Hi Ei]]. rewrite cset_name_length in Hi.
+    destruct (Nat.eq_dec i p) as [->|Hne].
+    + left. fold (cget (cset_name p new_name l) p) in Ei. rewrite <- Ei. symmetry. exact Ecmp.
+    + right. fold (cget (cset_name p new_name l) i) in Ei. rewrite cget_cset_other in Ei by exact Hne.
+      apply Hcover. rewrite <- Ei. apply in_map. apply nth_In. exact Hi.
+Qed.
